@@ -170,6 +170,78 @@ def case_voxel(H, N, D, voxel, feat):
         H.prove('%s/path%d' % (name, pn), H.hyps_of(ctx), z3.And(goals), replay=replay, key='C18/voxel_filter', timeout=30)
 
 
+def case_voxel_random(H, N, D, voxel, feat):
+    """voxel_filter(random=True): one row per occupied voxel (same count as classes), each row an input point, the selected points
+    lie in pairwise different voxels"""
+    name = 'C18/voxel_filter(random)/N=%d,D=%d,voxel=%s,feat=%d' % (N, D, voxel, feat)
+    W = D + feat
+
+    def brute_classes(P):
+        mn = P[:, :D].min(0).values
+        key = ((P[:, :D] - mn) / torch.tensor(voxel, dtype=DT)).to(torch.int64)
+        return [tuple(k.tolist()) for k in key]
+
+    def replay(model):
+        P = tensor_from_env(['p%d' % i for i in range(N * W)], model).view(N, W)
+        worst = None
+        # the clouds the solver proposes plus the degenerate ones (all points in one voxel, a single point)
+        for Q in (P, P[:1], P * 0 + P[:1] + torch.linspace(0, 1e-3, N, dtype=DT).view(N, 1)):
+            cls = brute_classes(Q)
+            try:
+                torch.manual_seed(0)
+                out = pp.voxel_filter(Q, list(voxel), random=True)
+            except Exception as e:
+                return True, 'voxel_filter(random=True) raised %s: %s on a cloud of %d point(s) in %d voxel(s)' % (type(e).__name__, str(e)[:60], Q.shape[0], len(set(cls)))
+            if tuple(out.shape) != (len(set(cls)), W):
+                return True, 'voxel_filter(random=True) returned shape %s for %d occupied voxel(s) of a (%d, %d) cloud' % (tuple(out.shape), len(set(cls)), Q.shape[0], W)
+            src = [[i for i in range(Q.shape[0]) if torch.equal(Q[i], out[r])] for r in range(out.shape[0])]
+            if any(not s_ for s_ in src) or len({cls[s_[0]] for s_ in src}) != out.shape[0]:
+                worst = 'rows are not members of pairwise different voxels'
+        return worst is not None, 'voxel_filter(random=True): %s' % worst
+
+    def prog(m):
+        P, p = sym_cloud(m, N, W, 'p', 4)
+        torch.manual_seed(0)
+        out = pp.voxel_filter(P, list(voxel), random=True)
+        return m.full_terms(out), tuple(out.shape), p
+
+    def on_raise(ctx, e):
+        H.absorb(ctx)
+        ok, det = replay(dict(ctx.env))
+        if ok:
+            H.violation('C18/voxel_filter(random)', '%s: %s' % (name, det), {'case': name, 'model': {k: v for k, v in ctx.env.items() if isinstance(v, float)}})
+        else:
+            H.prove('%s/raising-path%d-infeasible' % (name, H.paths), H.hyps_of(ctx), z3.BoolVal(False), replay=replay, key='C18/voxel_filter(random)', timeout=20)
+
+    for ctx, (out, shape, p) in run_paths(H, name, prog, max_paths=64, max_decisions=30, raised=on_raise):
+        pn = H.paths
+        mins = []
+        for c in range(D):
+            acc = p[0][c]
+            for i in range(1, N):
+                acc = z3.If(p[i][c] < acc, p[i][c], acc)
+            mins.append(acc)
+        vox = [[z3.ToInt((p[i][c] - mins[c]) / rat(voxel[c])) for c in range(D)] for i in range(N)]
+        same = lambda i, j: z3.And([vox[i][c] == vox[j][c] for c in range(D)])
+        nclass = z3.Sum([z3.If(z3.And([z3.Not(same(i, j)) for j in range(i)]) if i else z3.BoolVal(True), 1, 0) for i in range(N)])
+        ok_shape = len(shape) == 2 and shape[1] == W
+        H.prove('%s/path%d/shape' % (name, pn), [], z3.BoolVal(bool(ok_shape)), replay=replay, key='C18/voxel_filter(random)')
+        if not ok_shape:
+            continue
+        nout = shape[0]
+        rows = [out[r * W:(r + 1) * W] for r in range(nout)]
+        # which input row each output row is (syntactically: selection only moves data)
+        src = []
+        for r in range(nout):
+            cand = [i for i in range(N) if all(z3.is_true(z3.simplify(rows[r][c] == p[i][c])) for c in range(W))]
+            src.append(cand[0] if cand else None)
+        H.prove('%s/path%d/rows-are-input-points' % (name, pn), [], z3.BoolVal(all(s_ is not None for s_ in src)), replay=replay, key='C18/voxel_filter(random)')
+        goals = [nclass == nout]
+        if all(s_ is not None for s_ in src):
+            goals += [z3.Not(same(src[a], src[b])) for a in range(nout) for b in range(a)]
+        H.prove('%s/path%d/one-member-per-occupied-voxel' % (name, pn), H.hyps_of(ctx), z3.And(goals), replay=replay, key='C18/voxel_filter(random)', timeout=30)
+
+
 def case_knn_filter(H, N, D, k, radius, feat, ord_=2):
     name = 'C18/knn_filter/N=%d,D=%d,k=%d,r=%s,feat=%d,ord=%s' % (N, D, k, radius, feat, ord_)
 
@@ -332,6 +404,8 @@ def run(H):
     jobs.append(lambda: case_knn(H, 1, N, 1, 1, 2))
     jobs.append(lambda: case_voxel(H, N, 1, (0.5,), 1))
     jobs.append(lambda: case_voxel(H, N, 2, (0.5, 1.0), 0))
+    jobs.append(lambda: case_voxel_random(H, N, 1, (0.5,), 1))
+    jobs.append(lambda: case_voxel_random(H, 1, 2, (0.5, 1.0), 0))
     jobs.append(lambda: case_knn_filter(H, N, 2, 1, None, 1))
     jobs.append(lambda: case_knn_filter(H, N, 1, 1, 1.0, 0))
     jobs.append(lambda: case_knn_filter(H, N, 2, 1, 1.5, 1, 1))
